@@ -441,12 +441,13 @@ class ModelClient:
                 f"Currently {n_reporting_expected_units} reporting, need at least {minimum_reporting_units_max}"
             )
 
-        # a unit that reports has to be listed once. Its rows are counted in the combined data: among the modelled reporting
-        # units alone a second row goes unnoticed when it is below the threshold (the unit is then counted and predicted)
-        # or when an exclusion rule removes the id, and with it both rows, from the reporting units
-        combined_ids = data.data["geographic_unit_fips"]
-        reporting_ids = combined_ids[data.data["percent_expected_vote"] >= percent_reporting_threshold]
-        units_by_count = combined_ids[combined_ids.isin(reporting_ids)].value_counts()
+        # a unit that reports has to be listed once. Its rows are counted in the feed itself: among the modelled reporting
+        # units alone a second row goes unnoticed when it is below the threshold (the unit is then counted and predicted),
+        # when an exclusion rule removes the id, and with it both rows, from the reporting units, or when the unit is not
+        # a modelled one at all (only the first row of an unexpected unit is kept, the votes of the second would be lost)
+        feed_ids = current_data["geographic_unit_fips"]
+        reporting_ids = feed_ids[current_data["percent_expected_vote"] >= percent_reporting_threshold]
+        units_by_count = feed_ids[feed_ids.isin(reporting_ids)].value_counts()
         duplicate_units = units_by_count[units_by_count > 1].to_dict()
         if len(duplicate_units) > 0:
             raise ModelClientException(f"At least one unit appears twice: {duplicate_units}")
